@@ -219,3 +219,62 @@ def own_field_check(tier='quick', seed=0):
             'bounded': {'what': 'own-field check vs "references the current message" on parsed predicates',
                         'bound': f'{cases} predicates (depth <= 3)', 'cases': cases, 'distinct': cases, 'exhaustive': False},
             'samples': [{'note': 'check_some_self_references compared with mentions_this'}]}
+
+
+def contracts_on_constructors(tier='quick', seed=0, modules=('contracts.typing_c03',)):
+    """every expression-constructor contract evaluated natively: re-construction of corpus nodes from their own
+    fields, and constructions with one child replaced by a node of another kind (type clashes, narrowing)"""
+    import copy
+    import random
+    import attrs
+    from pyvc.native import native_check
+    from pyvc.contracts import CONTRACTS
+    from bounded import corpus
+    for m in modules:
+        importlib.import_module(m)
+    rnd = random.Random(seed)
+    n = 1200 if tier == 'thorough' else 250
+    nodes = corpus.all_nodes(corpus.expressions(seed, n, 3))
+    by_cls = {}
+    for x in nodes:
+        by_cls.setdefault(type(x).__name__, []).append(x)
+    cases = 0
+    violations, faults, samples = [], [], []
+    for cname, group in by_cls.items():
+        q = f'hpl.ast.expressions.{cname}.__init__'
+        if q not in CONTRACTS:
+            continue
+        for node in group:
+            fields = [a for a in attrs.fields(type(node)) if a.init and a.name != 'data_type']
+            base = {a.name: getattr(node, a.name) for a in fields}
+            variants = [dict(base)]
+            for a in fields:
+                v = base[a.name]
+                if hasattr(v, 'data_type'):
+                    for _ in range(2):
+                        alt = dict(base)
+                        alt[a.name] = rnd.choice(nodes)
+                        variants.append(alt)
+                elif isinstance(v, tuple) and v and hasattr(v[0], 'data_type'):
+                    alt = dict(base)
+                    alt[a.name] = v[:-1] + (rnd.choice(nodes),)
+                    variants.append(alt)
+            for env in variants:
+                env = copy.deepcopy(env)
+                env['data_type'] = None
+                cases += 1
+                r = native_check(q, env)
+                if r.get('clause_error'):
+                    faults.append(f'{q}: contract clause failed natively: {r["clause_error"][:300]}')
+                if r.get('valid_input') and r.get('violated'):
+                    violations.append({'witness': f'{cname}({ {k: str(v) for k, v in env.items()} })'[:300],
+                                       'what': f'{cname} construction violates {r["violated"]}: {r.get("outcome", "")[:160]}'})
+                if len(samples) < 2 and r.get('valid_input'):
+                    samples.append({'constructor': cname, 'args': {k: str(v)[:40] for k, v in env.items()}, 'outcome': r.get('outcome', '')[:100]})
+            if len(faults) > 3:
+                break
+    return {'obligations_n': 0, 'discharged_n': 0, 'violations': violations[:6], 'faults': faults[:3],
+            'bounded': {'what': 'constructor contracts (raise conditions, result value, well-typedness) evaluated natively',
+                        'bound': f'{len(nodes)} corpus nodes: self-reconstruction + 2 cross-kind child replacements per child slot',
+                        'cases': cases, 'distinct': cases, 'exhaustive': False},
+            'samples': samples}
